@@ -52,11 +52,13 @@ def interp_opacity(xsec, Tg, Pg, T, P, mode='linear', zero_corner=True):
     p0, p1, Pcl = bracket(Pg, P)
     fp = (math.log10(Pcl) - lPg[p0]) / (lPg[p1] - lPg[p0])
     fp = min(max(fp, 0.0), 1.0)
-    a = x[p0, t0] + fp * (x[p1, t0] - x[p0, t0])      # at T_lo
-    b = x[p0, t1] + fp * (x[p1, t1] - x[p0, t1])      # at T_hi
+    # convex combinations (not a + f (b - a)): neighbouring rows may be tens of decades apart, and a node must come out
+    # as the node
+    a = (1.0 - fp) * x[p0, t0] + fp * x[p1, t0]      # at T_lo
+    b = (1.0 - fp) * x[p0, t1] + fp * x[p1, t1]      # at T_hi
     if mode == 'linear':
         ft = (Tc - Tg[t0]) / (Tg[t1] - Tg[t0])
-        out = a + ft * (b - a)
+        out = (1.0 - ft) * a + ft * b
     elif mode == 'exp':
         ft = (1.0 / Tc - 1.0 / Tg[t0]) / (1.0 / Tg[t1] - 1.0 / Tg[t0])
         with np.errstate(all='ignore'):
